@@ -458,7 +458,7 @@ func enumVLAMasks(r *run) bool {
 	return true
 }
 
-const ruleC19 = "valid VLAs: rapid draws 1-4 streams, RID, a slot assignment (equal masks / inactive streams / arbitrary), 1-4 temporal layers with bitrates across all LEB128 size classes up to 2^32-1, optional resolution (1-65536)^2 and frame rate; every 16^n-1 slot assignment (69904 allocations) is also enumerated in both tiers, partitioned across the shards. Oracle: Marshal equals an independent encoder of the video-layers-allocation00 layout byte for byte, Unmarshal consumes everything and yields an equal VLA, also into a receiver that decoded another allocation before; VLAs with exactly one injected defect (boundary values, and wide out-of-range values incl. ones congruent to valid values modulo 2^8/2^16/2^32) must be rejected without panicking; hostile byte strings (random, mutated valid encodings, with earlier decode) must not panic and must report 0<=n<=len, and accepted ones must agree with the reference decoder. Non-trivial = differing masks, an inactive stream, >4 layers or a bitrate >=128 (valid), every invalid/hostile case; distinct = FNV-64 of the JSON case"
+const ruleC19 = "valid VLAs: rapid draws 1-4 streams, RID, a slot assignment (equal masks / inactive streams / arbitrary), 1-4 temporal layers with bitrates across all LEB128 size classes up to 2^32-1, optional resolution (1-65536)^2 and frame rate; every 16^n-1 slot assignment (69904 allocations) is also enumerated in both tiers, partitioned across the shards. Oracle: Marshal equals an independent encoder of the video-layers-allocation00 layout byte for byte, a second Marshal after the caller overwrote the first result gives the same bytes, Unmarshal consumes everything and yields an equal VLA, also into a receiver that decoded another allocation before (compared with a fresh receiver on every field, resolution fields included); VLAs with exactly one injected defect (boundary values, and wide out-of-range values incl. ones congruent to valid values modulo 2^8/2^16/2^32) must be rejected without panicking; hostile byte strings (random, mutated valid encodings, with earlier decode) must not panic and must report 0<=n<=len, and accepted ones must agree with the reference decoder and decode the same into a used and a fresh receiver. Non-trivial = differing masks, an inactive stream, >4 layers or a bitrate >=128 (valid), every invalid/hostile case; distinct = FNV-64 of the JSON case"
 
 func TestC19(t *testing.T) {
 	r := begin(t, "C19", "exploration", ruleC19)
